@@ -235,6 +235,7 @@ type Ctx struct {
 	Trace    bool
 	Notes    []string
 	curState *State
+	InitGlobals bool
 	MapReverse bool
 	replayPtrs map[uint64]*Object
 	replayFresh map[*Object]bool
